@@ -81,6 +81,11 @@ type outMsg struct {
 	err          error
 	done         bool
 	reply        bool
+	// Fwd: a pre-built message relayed verbatim (ForwardDataMessage): its system bytes are the
+	// originator's, and several relayed messages in a row may carry the very same header
+	Fwd  bool
+	Sys  uint32
+	Sess uint16
 }
 
 type outbound struct {
@@ -111,6 +116,27 @@ func buildOutbound() core.BuildFunc {
 			}
 			h.msgs = append(h.msgs, m)
 		}
+		if t.Choose("scn", 2) == 1 {
+			// a relay: 2-4 pre-built messages of one originator that re-uses one system-bytes value (and
+			// so one block header) for different bodies; placed anywhere among the other messages
+			k := 2 + t.Choose("scn", 3)
+			tmpl := outMsg{Stream: byte(1 + t.Choose("scn", 126)), Func: byte(2 * t.Choose("scn", 100)), Fwd: true, Sys: uint32(0x70000000 + t.Choose("scn", 1<<20)), Sess: device}
+			if t.Choose("scn", 2) == 1 {
+				tmpl.Sess = uint16(t.Choose("scn", 32768))
+			}
+			at := t.Choose("scn", len(h.msgs)+1)
+			var fw []*outMsg
+			last := -2
+			for i := 0; i < k; i++ {
+				m := tmpl
+				for m.N = last; m.N == last; {
+					m.N = []int{0, 1, 8, 200, 244, 245, 300, 600}[t.Choose("scn", 8)]
+				}
+				last = m.N
+				fw = append(fw, &m)
+			}
+			h.msgs = append(h.msgs[:at], append(fw, h.msgs[at:]...)...)
+		}
 		h.setup(w, active, equip, device, time.Second)
 		// the peer answers W-bit primaries once the message is complete
 		h.p.OnBlock = func(b refe4.RxBlock) {
@@ -128,7 +154,7 @@ func buildOutbound() core.BuildFunc {
 		})
 		var desc []string
 		for _, m := range h.msgs {
-			desc = append(desc, fmt.Sprintf("S%dF%d W=%v data=%d", m.Stream, m.Func, m.W, m.N))
+			desc = append(desc, fmt.Sprintf("S%dF%d W=%v data=%d relayed=%v", m.Stream, m.Func, m.W, m.N, m.Fwd))
 		}
 
 		return &core.Scenario{
@@ -156,6 +182,17 @@ func (h *outbound) app() {
 			} else {
 				m.want = append([]byte{0x22, byte(m.N >> 8), byte(m.N)}, data...)
 			}
+		}
+		if m.Fwd {
+			h.w.Probe("relayed_message_with_reused_header")
+			fm, err := hsms.NewDataMessage(m.Stream, m.Func, false, m.Sess, [4]byte{byte(m.Sys >> 24), byte(m.Sys >> 16), byte(m.Sys >> 8), byte(m.Sys)}, item)
+			if err == nil {
+				err = h.r.C.ForwardDataMessage(context.Background(), fm)
+			}
+			m.err, m.done = err, true
+			core.Sleep(time.Duration(h.w.T.Choose("app", 4)) * time.Millisecond)
+
+			continue
 		}
 		rep, err := h.r.C.SendDataMessage(context.Background(), m.Stream, m.Func, m.W, item)
 		m.err, m.done, m.reply = err, true, rep != nil
@@ -214,7 +251,10 @@ func (h *outbound) final(reason string) {
 
 				return
 			}
-			if num == 1 {
+			if num == 1 && m.Fwd {
+				first = b.H
+				first.Sys = m.Sys
+			} else if num == 1 {
 				first = b.H
 				for _, s := range seenSys {
 					if s == b.H.Sys {
@@ -607,6 +647,9 @@ func (h *inbound) ctx() string {
 func Build(config string) core.BuildFunc {
 	if config == "inbound" {
 		return buildInbound()
+	}
+	if config == "inbound-regen" {
+		return buildRegen()
 	}
 
 	return buildOutbound()
